@@ -44,8 +44,11 @@ POWERS = (-2, -1, 0, 0.5, 1, 1.5, 2, 3)
 SIG_F7 = {'function': 'SolarRadiation/OrbitalTime synodic/orbital phase',
           'kind': 'overshoot<=16*eps*max(|unreduced|,2pi)'}
 DURATION_CHUNK = 4321            # scalar blocks: 20 blocks cover 0..86400 (the last one is clipped)
-ARRAY_BLOCK = 250_000
-DENSE_SCALES_QUICK = ('DEFAULT', 'CUSTOM_A')   # quick tier: every-minute lattice under these scales only
+ARRAY_UNIT = 500_000             # seconds per duration_array work unit (thorough)
+ARRAY_CALL = 10_000              # seconds per array call (one case)
+LATTICE_CALL = {'dense': 1440, 'sparse': 1000}   # datetimes per array call (one case): a day / 1000 stamps
+ORBITAL_SCALAR_STRIDE = {'quick': 29, 'thorough': 5}
+DATETIME_TO_TIME_STRIDE = {'quick': 16, 'thorough': 3}
 
 
 def bounds(tier):
@@ -58,13 +61,15 @@ def bounds(tier):
       powers=list(POWERS),
       pair_laws='ordered pairs (every unit) x (%s)' % ('units with exponents in -1..1 + named (86)' if q else 'every unit (630)'),
       durations_scalar='every whole second 0..86400, 5 scales' + ('' if q else ' and -86400..0; minutes 0..1440, hours 0..240'),
-      durations_array='0..86400 and -86400..0' if q else '-86400..0 and 0..10^7 in stride-1 blocks of 250000',
-      datetimes='every minute 1979-01-01..1980-02-29 (612000)%s + every 97th minute over 50 years (271114), all scales'
-                % (' under scales %s' % (DENSE_SCALES_QUICK,) if q else ', all scales'),
+      durations_array=('0..86400 and -86400..0' if q else '-86400..0 and 0..10^7') + ', stride 1, %d per array call' % ARRAY_CALL,
+      datetimes='every minute 1979-01-01..1980-02-29 (612000, one day per array call) + every 97th minute over 50 years '
+                '(271114, 1000 per array call); 0-d route on every 97th lattice element',
+      datetime_dtypes=['dense: datetime64[m]', 'sparse: datetime64[ns]'] if q else ['datetime64[m]', 'datetime64[s]', 'datetime64[ns]'],
       reference_dates={k: str(np.datetime64(int(v), 'm')) for k, v in ru.REFERENCE_DATES.items()},
       orbital_dtypes=['float64', 'float32'],
-      orbital_paths=['jax.vmap', 'python scalar (sparse lattice, stride %d)' % (7 if q else 1)],
-      datetime_to_time='sparse lattice stride %d%s' % (8 if q else 1, '' if q else ' + dense lattice under DEFAULT'),
+      orbital_paths=['jax.vmap op-by-op on both lattices', 'jax.jit(jax.vmap) on both lattices', 'python scalar (sparse lattice, stride %d)' % ORBITAL_SCALAR_STRIDE[tier]],
+      datetime_to_time='sparse lattice stride %d%s' % (DATETIME_TO_TIME_STRIDE[tier], '' if q else ' + dense lattice under DEFAULT/WB1979'),
+      calendar_phase='datetime_to_orbital_time on every element of both lattices',
       time_axis_steps='1..60 units of ns(x1e9)/us(x1e6)/ms(x1e3)/s/m/h/D',
   )
 
@@ -104,36 +109,34 @@ def units(tier, seed):
     if q:
       us.append(dict(kind='duration_array', scale=sc, start=0, count=86401))
     else:
-      for s, n in _chunks(10_000_001, ARRAY_BLOCK):
+      for s, n in _chunks(10_000_001, ARRAY_UNIT):
         us.append(dict(kind='duration_array', scale=sc, start=s, count=n))
     us.append(dict(kind='time_axis', scale=sc))
   # datetimes and orbital phases
   n_dense = ru.DENSE_END - ru.DENSE_START
-  blocks = [('dense', s, n) for s, n in _chunks(n_dense, 153_000)] + \
-           [('sparse', s, n) for s, n in _chunks(ru.SPARSE_COUNT, 135_557)]
   for sc in ru.SCALE_NAMES:
     for ref in ru.REFERENCE_DATES:
-      for lat, s, n in blocks:
-        if q and lat == 'dense' and sc not in DENSE_SCALES_QUICK:
-          continue
+      for lat in ('dense', 'sparse'):
         tunits = ['m' if lat == 'dense' else 'ns'] if q else (['m', 's'] if lat == 'dense' else ['ns', 'm'])
         for tu in tunits:
-          us.append(dict(kind='datetime', scale=sc, ref=ref, lattice=lat, start=s, count=n, tunit=tu))
+          us.append(dict(kind='datetime', scale=sc, ref=ref, lattice=lat, tunit=tu))
         for dt in ('float64', 'float32'):
-          us.append(dict(kind='orbital', scale=sc, ref=ref, lattice=lat, start=s, count=n, dtype=dt, path='vmap', stride=1))
-      stride = 7 if q else 1
-      for s, n in _chunks((ru.SPARSE_COUNT + stride - 1) // stride, 45_000):
+          for path in ('vmap', 'jit'):
+            us.append(dict(kind='orbital', scale=sc, ref=ref, lattice=lat, dtype=dt, path=path))
+      stride = ORBITAL_SCALAR_STRIDE[tier]
+      for s, n in _chunks((ru.SPARSE_COUNT + stride - 1) // stride, 14_000):
         for dt in ('float64', 'float32'):
           us.append(dict(kind='orbital', scale=sc, ref=ref, lattice='sparse', start=s * stride, count=n, dtype=dt,
                          path='scalar', stride=stride))
-      stride = 8 if q else 1
+      stride = DATETIME_TO_TIME_STRIDE[tier]
       for s, n in _chunks((ru.SPARSE_COUNT + stride - 1) // stride, 17_000):
         us.append(dict(kind='datetime_to_time', scale=sc, ref=ref, lattice='sparse', start=s * stride, count=n, stride=stride))
-      if not q and sc == 'DEFAULT':
+      if not q and sc == 'DEFAULT' and ref == 'WB1979':
         for s, n in _chunks(n_dense, 17_000):
           us.append(dict(kind='datetime_to_time', scale=sc, ref=ref, lattice='dense', start=s, count=n, stride=1))
-  for lat, s, n in blocks:
-    us.append(dict(kind='calendar_phase', lattice=lat, start=s, count=n))
+  for lat, total in (('dense', n_dense), ('sparse', ru.SPARSE_COUNT)):
+    for s, n in _chunks(total, 153_000):
+      us.append(dict(kind='calendar_phase', lattice=lat, start=s, count=n))
   return us
 
 
@@ -358,26 +361,26 @@ def _work_duration_scalar(unit, rec):
 def _work_duration_array(unit, rec):
   sname = unit['scale']
   specs = _specs(sname)
-  secs = unit['start'] + np.arange(unit['count'], dtype=np.int64)
-  td = secs.astype('timedelta64[s]')
-  x = specs.nondimensionalize_timedelta64(td)
-  back = specs.dimensionalize_timedelta64(x)
-  want = ru.nondim_seconds(sname, secs)
-  bs = np.asarray(back / np.timedelta64(1, 's')).astype(np.int64) if back.dtype.kind == 'm' else np.full(secs.shape, -1)
-  ok = back.dtype.kind == 'm' and back.shape == td.shape and bool(np.all(back == td))
-  smp = {'scale': sname, 'durations': 'array %d..%d s' % (secs[0], secs[-1]), 'first back': str(back[:3])}
-  for s, b in zip(secs.tolist(), bs.tolist()):
-    rec.case(('duration', sname, 'array', 's', s), transitions=2, outcome=(b,), sample=smp)
-  bkey = ('duration', sname, 'array', 's', int(secs[0]), int(secs[-1]))
-  if not ok:
-    idx = np.flatnonzero(np.asarray(back != td))
-    for i in idx[:3]:
-      rec.check(False, 'whole_second_duration_round_trip', ('duration', sname, 'array', 's', int(secs[i])),
-                {'duration_s': int(secs[i]), 'nondim': float(x[i]), 'back': str(back[i]), 'failing_in_block': int(idx.size)})
-  nz = secs != 0
-  i = int(np.argmax(np.abs(x[nz] / want[nz] - 1))) if nz.any() else 0
-  _rel(rec, x[nz], want[nz], 'nondim_duration_vs_exact', ('duration', sname, 'array', 's', int(secs[nz][i])))
-  rec.zero(x[~nz], site='nondim_duration_zero', key=bkey)
+  for s0, n in _chunks(unit['count'], ARRAY_CALL):
+    secs = unit['start'] + s0 + np.arange(n, dtype=np.int64)
+    td = secs.astype('timedelta64[s]')
+    key = ('duration', sname, 'array', 's', int(secs[0]), int(secs[-1]))
+    x = specs.nondimensionalize_timedelta64(td)
+    back = specs.dimensionalize_timedelta64(x)
+    want = ru.nondim_seconds(sname, secs)
+    rec.case(key, transitions=2, validated=n, outcome=np.asarray(back).tobytes(),
+             sample={'scale': sname, 'durations': 'array of every whole second %d..%d' % (secs[0], secs[-1]),
+                     'nondim[:2]': x[:2].tolist(), 'back[:3]': str(back[:3])})
+    ok = back.dtype.kind == 'm' and back.shape == td.shape and bool(np.all(back == td))
+    if not ok:
+      idx = np.flatnonzero(np.asarray(back != td)) if back.shape == td.shape else np.arange(1)
+      i = int(idx[0])
+      rec.check(False, 'whole_second_duration_round_trip', key,
+                {'first_failing_duration_s': int(secs[i]), 'nondim': float(x[i]), 'back': str(back[i] if back.shape == td.shape else back),
+                 'failing_in_block': int(idx.size), 'failing_first_10': [int(v) for v in secs[idx[:10]]]})
+    nz = secs != 0
+    _rel(rec, x[nz], want[nz], 'nondim_duration_vs_exact', key)
+    rec.zero(x[~nz], site='nondim_duration_zero', key=key)
 
 
 def _work_time_axis(unit, rec):
@@ -416,37 +419,43 @@ def _work_datetime(unit, rec):
   sname = unit['scale']
   specs = _specs(sname)
   tu = unit['tunit']
-  mins = _lattice(unit)
+  lat = unit['lattice']
+  total = (ru.DENSE_END - ru.DENSE_START) if lat == 'dense' else ru.SPARSE_COUNT
   ref_min = ru.REFERENCE_DATES[unit['ref']]
   ref = np.datetime64(int(ref_min), 'm').astype('datetime64[%s]' % ('m' if tu == 'm' else 's'))
-  times = mins.astype('datetime64[m]').astype('datetime64[%s]' % tu)
-  nd = xu.datetime64_to_nondim_time(times, specs, ref)
-  back = xu.nondim_time_to_datetime64(nd, specs, ref)
+  for s0, n in _chunks(total, LATTICE_CALL[lat]):
+    mins = ru.lattice_minutes(lat, s0, n)
+    times = mins.astype('datetime64[m]').astype('datetime64[%s]' % tu)
+    key = ('datetime', sname, unit['ref'], tu, lat, int(mins[0]), int(mins[-1]))
+    nd = xu.datetime64_to_nondim_time(times, specs, ref)
+    back = xu.nondim_time_to_datetime64(nd, specs, ref)
+    want = ru.nondim_seconds(sname, (mins - ref_min) * 60)
+    rec.case(key, transitions=2, validated=n, outcome=np.asarray(nd).tobytes() + np.asarray(back).tobytes(),
+             sample={'scale': sname, 'reference': str(ref), 'datetimes': '%s .. %s (%d stamps, %s)' % (times[0], times[-1], n, times.dtype),
+                     'nondim[:2]': np.asarray(nd)[:2].tolist(), 'back[:2]': [str(v) for v in back[:2]]})
+    eq = np.asarray(back == times)
+    if not (back.shape == times.shape and eq.all()):
+      idx = np.flatnonzero(~eq) if back.shape == times.shape else np.arange(1)
+      i = int(idx[0])
+      rec.check(False, 'datetime_round_trip_exact_at_minute_resolution', key,
+                {'first_failing_datetime': str(times[i]), 'reference': str(ref), 'nondim': float(nd[i]),
+                 'back': str(back[i] if back.shape == times.shape else back), 'failing_in_block': int(idx.size)})
+    nz = want != 0
+    _rel(rec, nd[nz], want[nz], 'nondim_time_vs_exact', key, {'reference': str(ref)})
+    rec.zero(nd[~nz], site='nondim_time_zero_at_reference', key=key)
+  # 0-d route on the sub-lattice of every 97th element
+  mins = ru.lattice_minutes(lat, 0, (total + 96) // 97, 97)
   want = ru.nondim_seconds(sname, (mins - ref_min) * 60)
-  bm = ((back - np.datetime64(0, 'm')) / np.timedelta64(1, 'm'))
-  smp = {'scale': sname, 'reference': str(ref), 'datetime': str(times[0]), 'nondim': float(nd[0]), 'back': str(back[0])}
-  for m, b in zip(mins.tolist(), bm.tolist()):
-    rec.case(('datetime', sname, unit['ref'], tu, m), transitions=2, outcome=(b,), sample=smp)
-  eq = np.asarray(back == times)
-  if not (back.shape == times.shape and eq.all()):
-    idx = np.flatnonzero(~eq)
-    for i in idx[:3]:
-      rec.check(False, 'datetime_round_trip_exact_at_minute_resolution', ('datetime', sname, unit['ref'], tu, int(mins[i])),
-                {'datetime': str(times[i]), 'reference': str(ref), 'nondim': float(nd[i]), 'back': str(back[i]),
-                 'failing_in_block': int(idx.size)})
-  nz = want != 0
-  if nz.any():
-    i = int(np.argmax(np.abs(nd[nz] / want[nz] - 1)))
-    _rel(rec, nd[nz], want[nz], 'nondim_time_vs_exact', ('datetime', sname, unit['ref'], tu, int(mins[nz][i])))
-  rec.zero(nd[~nz], site='nondim_time_zero_at_reference', key=('datetime', sname, unit['ref'], tu, int(ref_min)))
-  # 0-d route on the sub-lattice of every 97th element of the block
-  for i in range(0, len(mins), 97):
-    key = ('datetime', sname, unit['ref'], tu, int(mins[i]), 'scalar')
-    x = xu.datetime64_to_nondim_time(times[i], specs, ref)
+  for m, w in zip(mins.tolist(), want.tolist()):
+    key = ('datetime', sname, unit['ref'], tu, m, 'scalar')
+    t = np.datetime64(m, 'm').astype('datetime64[%s]' % tu)
+    x = xu.datetime64_to_nondim_time(t, specs, ref)
     b = xu.nondim_time_to_datetime64(x, specs, ref)
-    rec.case(key, transitions=2, outcome=(str(b),))
-    rec.check(bool(b == times[i]) and float(x) == float(nd[i]), 'datetime_round_trip_scalar', key,
-              {'datetime': str(times[i]), 'nondim': float(x), 'nondim_array_route': float(nd[i]), 'back': str(b)})
+    rec.case(key, transitions=2, outcome=(float(x), str(b)))
+    rec.check(bool(b == t), 'datetime_round_trip_scalar', key,
+              {'datetime': str(t), 'reference': str(ref), 'nondim': float(x), 'back': str(b)})
+    if w:
+      _rel(rec, x, w, 'nondim_time_vs_exact', key, {'reference': str(ref)})
 
 
 def _work_datetime_to_time(unit, rec):
@@ -457,15 +466,16 @@ def _work_datetime_to_time(unit, rec):
   ref_min = ru.REFERENCE_DATES[unit['ref']]
   ref64 = np.datetime64(int(ref_min), 'm')
   refdt = ru.EPOCH + datetime.timedelta(minutes=int(ref_min))
+  sr = rad.SolarRadiation(_coords(), specs, refdt)
   want = ru.nondim_seconds(sname, (mins - ref_min) * 60)
   got = np.empty(len(mins)); got64 = np.empty(len(mins))
   for i, m in enumerate(mins.tolist()):
     when = ru.EPOCH + datetime.timedelta(minutes=m)
     got[i] = rad.datetime_to_time(when, specs, ref64)
-    got64[i] = rad.datetime_to_time(np.datetime64(m, 'm'), specs, refdt)
+    got64[i] = sr.datetime_to_time(np.datetime64(m, 'm'))      # the method route, datetime64 input
     rec.case(('datetime_to_time', sname, unit['ref'], m), transitions=2, outcome=struct.pack('<2d', got[i], got64[i]),
              sample={'scale': sname, 'reference': str(ref64), 'when': str(when), 'nondim_time': got[i]})
-  for g, site in ((got, 'datetime_to_time_vs_exact'), (got64, 'datetime_to_time_datetime64_vs_exact')):
+  for g, site in ((got, 'datetime_to_time_vs_exact'), (got64, 'SolarRadiation_datetime_to_time_datetime64_vs_exact')):
     nz = want != 0
     if nz.any():
       i = int(np.argmax(np.abs(g[nz] / want[nz] - 1)))
@@ -535,33 +545,51 @@ def _work_orbital(unit, rec):
   from dinosaur import radiation as rad
   sname = unit['scale']
   specs = _specs(sname)
-  mins = _lattice(unit)
+  lat = unit['lattice']
   ref_min = ru.REFERENCE_DATES[unit['ref']]
   # the WeatherBench reference is given as datetime.datetime (as in the library), the others as datetime64
   ref = (ru.EPOCH + datetime.timedelta(minutes=int(ref_min))) if unit['ref'] == 'WB1979' else np.datetime64(int(ref_min), 'm')
   sr = rad.SolarRadiation(_coords(), specs, ref)
   dtype = np.dtype(unit['dtype'])
   eps = float(np.finfo(dtype).eps)
-  t = ru.nondim_seconds(sname, (mins - ref_min) * 60).astype(dtype)
   path = unit['path']
-  if path == 'vmap':
-    ot = jax.vmap(sr.time_to_orbital_time)(jnp.asarray(t))
-    orb, syn = np.asarray(ot.orbital_phase), np.asarray(ot.synodic_phase)
+  base = ('orbital', sname, unit['ref'], unit['dtype'], path)
+  if path in ('vmap', 'jit'):
+    total = (ru.DENSE_END - ru.DENSE_START) if lat == 'dense' else ru.SPARSE_COUNT
+    mins = ru.lattice_minutes(lat, 0, total)
+    t = ru.nondim_seconds(sname, (mins - ref_min) * 60).astype(dtype)
+    # 'vmap': op-by-op execution of the batched function; 'jit': the same compiled by XLA (as inside a model step)
+    f = jax.vmap(sr.time_to_orbital_time)
+    if path == 'jit':
+      f = jax.jit(f)
+    orb = np.empty(total, dtype=dtype); syn = np.empty(total, dtype=dtype)
+    for s0, n in _chunks(total, LATTICE_CALL[lat]):
+      ot = f(jnp.asarray(t[s0:s0 + n]))
+      o, sy = np.asarray(ot.orbital_phase), np.asarray(ot.synodic_phase)
+      if o.dtype != dtype:     # a promoted result is kept at its own precision for the oracles below
+        orb = orb.astype(o.dtype); syn = syn.astype(o.dtype)
+      orb[s0:s0 + n] = o; syn[s0:s0 + n] = sy
+      rec.case(base + (lat, int(mins[s0]), int(mins[s0 + n - 1])), transitions=1, validated=n, outcome=o.tobytes() + sy.tobytes(),
+               sample={'scale': sname, 'reference': str(ref), 'dtype': unit['dtype'], 'path': 'jax.jit(jax.vmap(f))' if path == 'jit' else 'jax.vmap(f), op by op',
+                       'datetimes': '%s .. %s (%d stamps)' % (np.datetime64(int(mins[s0]), 'm'), np.datetime64(int(mins[s0 + n - 1]), 'm'), n),
+                       'time_nondim[0]': float(t[s0]), 'orbital_phase[0]': float(o[0]), 'synodic_phase[0]': float(sy[0])})
+    keyf = lambda i: base + (lat, int(mins[i - i % LATTICE_CALL[lat]]), int(mins[min(total, i - i % LATTICE_CALL[lat] + LATTICE_CALL[lat]) - 1]))
   else:
+    mins = _lattice(unit)
+    t = ru.nondim_seconds(sname, (mins - ref_min) * 60).astype(dtype)
     orb = np.empty(len(t), dtype=dtype); syn = np.empty(len(t), dtype=dtype)
     vals = t.tolist() if dtype == np.float64 else list(t)      # python floats / numpy float32 scalars
-    for i, v in enumerate(vals):
+    smp = None
+    for i, (m, v) in enumerate(zip(mins.tolist(), vals)):
       o = sr.time_to_orbital_time(v)
       orb[i] = o.orbital_phase
       syn[i] = o.synodic_phase
-  keyf = lambda i: ('orbital', sname, unit['ref'], unit['dtype'], path, int(mins[i]))
-  both = np.stack([orb.astype(np.float64), syn.astype(np.float64)], axis=1)
-  smp = {'scale': sname, 'reference': str(ref), 'dtype': unit['dtype'], 'path': path,
-         'datetime': str(np.datetime64(int(mins[0]), 'm')), 'time_nondim': float(t[0]),
-         'orbital_phase': float(orb[0]), 'synodic_phase': float(syn[0])}
-  base = ('orbital', sname, unit['ref'], unit['dtype'], path)
-  for m, row in zip(mins.tolist(), both):
-    rec.case(base + (m,), transitions=1, outcome=row.tobytes(), sample=smp)
+      if i < 2:
+        smp = {'scale': sname, 'reference': str(ref), 'dtype': unit['dtype'], 'path': 'python scalar',
+               'datetime': str(np.datetime64(m, 'm')), 'time_nondim': float(v),
+               'orbital_phase': float(orb[i]), 'synodic_phase': float(syn[i])}
+      rec.case(base + (m,), transitions=1, outcome=(float(orb[i]), float(syn[i])), sample=smp)
+    keyf = lambda i: base + (int(mins[i]),)
   _phase_checks(rec, 'orbital_phase', orb, t, mins, unit, eps, keyf)
   _phase_checks(rec, 'synodic_phase', syn, t, mins, unit, eps, keyf)
 
